@@ -125,6 +125,9 @@ class SvsInst:
                 continue
             rsv_id = enc.Name.to_bytes(rsv.node_id)
             rsv_seq = rsv.seq_no
+            if rsv_seq is None:
+                self.logger.error('Received a state vector entry without sequence number.')
+                return
             if rsv_id == self.self_node_id and rsv_seq > self.self_seq:
                 self.logger.error('Remote side has more local data for local node.')
                 return
